@@ -182,6 +182,24 @@ theorem fuel_sufficient (e : Env) (pool : List Tx) (fuel : Nat) (hf : defaultFue
     heapOps.pop (runSelect heapOps e pool fuel).byFee (runSelect heapOps e pool fuel).queue = none :=
   runSelect_done heapSize e pool fuel hf
 
+/-- Templates are values: generating another template (from any other pool) leaves a template that
+was handed out earlier exactly as it was — in particular still valid.  In the pure model this holds by
+construction; the correspondence op `two` is what ties the implementation to it (an implementation
+whose templates share mutable memory, e.g. a commitment script aliasing a package-level buffer,
+breaks it). -/
+theorem templates_are_values (e : Env) (poolA poolB : List Tx) (fuelA fuelB : Nat) :
+    (generateTwice ops e poolA poolB fuelA fuelB).1 = newBlockTemplate ops e poolA fuelA
+    ∧ (generateTwice ops e poolA poolB fuelA fuelB).2 = newBlockTemplate ops e poolB fuelB :=
+  ⟨rfl, rfl⟩
+
+/-- … so the earlier template of two is valid after the later one exists. -/
+theorem earlier_template_stays_valid (law : QueueLaw ops) (e : Env) (poolA poolB : List Tx) (fuelA fuelB : Nat)
+    (hp : PoolOk poolA) (he : EnvOk e) (hno : feesNotOverstatedB e poolA = true)
+    (hmax : e.maxWeight ≤ MAX_BLOCK_WEIGHT) :
+    (generateTwice ops e poolA poolB fuelA fuelB).1 = Result.ok (candidate ops e poolA fuelA)
+    ∧ blockValid e poolA (candidate ops e poolA fuelA) = true :=
+  ⟨generation_succeeds_partial law e poolA fuelA hp he hno hmax, template_valid law e poolA fuelA hp he hno hmax⟩
+
 /-! ## F-C12-a: why the clock matters -/
 
 /-- A lock time between the past median time and the wall clock with a non-final sequence is final
